@@ -545,6 +545,28 @@ func (m *Model) MinimalValues(depth int) []*V {
 	out := []*V{none, all}
 	digest := enc.Component{Typ: 2, Val: make([]byte, 32)}
 	a := enc.Component{Typ: 8, Val: []byte("a")}
+	// names made of many zero-length / one-byte components (first, so that the quick tier's cap keeps them)
+	empty := enc.Component{Typ: 8, Val: []byte{}}
+	var manyNames []enc.Name
+	for _, n := range []int{2, 3, 4, 5, 8, 12} {
+		nm := make(enc.Name, n)
+		for j := range nm {
+			nm[j] = empty
+		}
+		manyNames = append(manyNames, nm)
+	}
+	manyNames = append(manyNames, enc.Name{empty, a, empty, empty, a, empty}, enc.Name{a, a, a, a, a, a, a}, enc.Name{a, empty, empty, empty, empty})
+	for i := range m.Fields {
+		k := &m.Fields[i].K
+		switch {
+		case k.Tag == "name" || k.Tag == "interestName":
+			for _, nm := range manyNames {
+				out = append(out, none.with(i, &V{K: VName, Name: nm}))
+			}
+		case k.Tag == "seq" && k.Sub.Tag == "name":
+			out = append(out, none.with(i, &V{K: VSeq, Elems: []*V{{K: VName, Name: manyNames[2]}, {K: VName, Name: manyNames[6]}}}))
+		}
+	}
 	for i := range m.Fields {
 		k := &m.Fields[i].K
 		if k.Tag == "marker" || k.Tag == "signature" {
